@@ -141,6 +141,12 @@ func c06Impl(st *policy.State, path string) ([]string, error, bool) {
 	}
 	ch := make(chan res, 1)
 	go func() {
+		defer func() {
+			// a crash of the walk is reported like any other wrong answer
+			if r := recover(); r != nil {
+				ch <- res{nil, fmt.Errorf("c06: the walk panicked: %v", r)}
+			}
+		}()
 		vs, err := st.FindVerifiersForPath(path)
 		ids := []string{}
 		for _, v := range vs {
